@@ -2,3 +2,4 @@ import BufGen.AstFacts
 import BufGen.ConstsC08
 import BufGen.RuleTables
 import BufGen.Wkt
+import BufGen.BreakingTables
